@@ -23,3 +23,9 @@ package lang
 //@ contract (lang.Address).Copy (a) (result)
 //@   ensures [C09,C17] len(result) == len(a) && cap(result) == len(result) && fresh(result)
 //@   ensures [C09,C17] forall(j, 0, len(a), result[j] == a[j])
+
+// ---- every element is examined: the loops below have no break and no return inside, i.e. they are left only
+// ---- when their range is exhausted (generated from the control-flow graph of the pinned tree with
+// ---- `govc loops`; tagged with the properties anchored in the function's file). An added early exit in a
+// ---- collecting loop silently drops the remaining elements.
+//@ loop-complete (lang.Address).String 1 C09
